@@ -377,7 +377,9 @@ def check_names(src, tmp, names, reference):
     """the same text under every file name must give the reference result (up to source-location details)"""
     viol = []
     for j, name in enumerate(names):
-        d = os.path.join(tmp, f"names{abs(hash(src)) % 10**6}_{j}")
+        # one directory per file name (the chunks of names run in parallel: a directory shared between them would put e.g. a
+        # `hashlib.py` next to `-neg.py`, which is run from its own directory — and shadow the interpreter's module there)
+        d = os.path.join(tmp, f"names{abs(hash(src)) % 10**6}_{abs(hash(name)) % 10**8}_{j}")
         os.makedirs(d, exist_ok=True)
         path = os.path.join(d, name)
         with open(path, "w", encoding="utf-8") as f:
